@@ -112,12 +112,13 @@ class AffineTransformation(darsia.BaseTransformation):
                         flip_factor * degree * vector
                     ).as_matrix()
                     rotation_matrix_inv = Rotation.from_rotvec(
-                        -degree * vector
+                        -flip_factor * degree * vector
                     ).as_matrix()
 
                     self.rotation = np.matmul(self.rotation, rotation_matrix)
+                    # NOTE: Reverse order for the inverse.
                     self.rotation_inv = np.matmul(
-                        self.rotation_inv, rotation_matrix_inv
+                        rotation_matrix_inv, self.rotation_inv
                     )
 
     def set_parameters_as_vector(self, parameters: np.ndarray) -> None:
